@@ -804,6 +804,12 @@ func (e *Enc) ghostGet(st *State, name, gt string) Val {
 // havocObject forgets the fields of the struct object at ref (and of struct values nested in it).
 func (bs *blockState) havocObject(t types.Type, ref string) {
 	e := bs.e
+	if lv, ok := e.fieldPtrs[ref]; ok {
+		v := e.freshVal("hv.field", t)
+		e.assume(bs.g, e.typeFacts(v))
+		e.storeField(bs.st, lv.stT, lv.fidx, lv.obj, v)
+		return
+	}
 	st, ok := t.Underlying().(*types.Struct)
 	if !ok {
 		for j, so := range flatten(t) {
